@@ -564,7 +564,7 @@ func hostVariants(rng *mrand.Rand, host string, all bool) []certSpec {
 		out = append(out, s)
 	}
 	const acceptSide = "accept side: only the canonical credential is judged for acceptance"
-	const legacy = "whether a name carried outside the matching SAN type makes a certificate 'valid for' a host is a convention the statement does not fix"
+	const legacy = "an address written as text into a dNSName SAN: whether that makes a certificate 'valid for' the address is a convention the statement does not fix"
 	if ip := net.ParseIP(host); ip != nil {
 		ip4 := ip.To4()
 		nb := net.IPv4(ip4[0], ip4[1], ip4[2], ip4[3]+1).String()
@@ -579,7 +579,11 @@ func hostVariants(rng *mrand.Rand, host string, all bool) []certSpec {
 		add("san-ip-two-wrong", func(s *certSpec) { s.IPs = []string{nb, nb2} })
 		add("san-ip-right-among-others", func(s *certSpec) { s.IPs = []string{nb, host}; s.Unjudged = acceptSide })
 		add("san-dns-holds-ip-text", func(s *certSpec) { s.DNS = []string{host}; s.Unjudged = legacy })
-		add("cn-holds-ip-no-san", func(s *certSpec) { s.CN = host; s.Unjudged = legacy })
+		// the subject CN is never an identity: "valid for" an address means an equal iPAddress SAN
+		add("cn-holds-ip-no-san", func(s *certSpec) { s.CN = host })
+		add("cn-holds-ip-san-other-ip", func(s *certSpec) { s.CN = host; s.IPs = []string{nb} })
+		add("cn-holds-ip-san-dns-unrelated", func(s *certSpec) { s.CN = host; s.DNS = []string{"client." + randWord(rng, 5) + ".test"} })
+		add("cn-holds-ip-bracketed-no-san", func(s *certSpec) { s.CN = "[" + host + "]" })
 		return out
 	}
 	n := len(host)
@@ -624,7 +628,14 @@ func hostVariants(rng *mrand.Rand, host string, all bool) []certSpec {
 	add("no-san-cn-empty", func(s *certSpec) { s.CN = "" })
 	add("ou-holds-host", func(s *certSpec) { s.OU = host })
 	add("san-dns-unrelated", func(s *certSpec) { s.DNS = []string{"client." + randWord(rng, 5) + ".test"}; s.Near = false })
-	add("cn-holds-host-no-san", func(s *certSpec) { s.CN = host; s.Unjudged = legacy })
+	// the subject CN is never an identity: "valid for" a host name means a matching dNSName SAN
+	add("cn-holds-host-no-san", func(s *certSpec) { s.CN = host })
+	add("cn-holds-host-upper-case-no-san", func(s *certSpec) { s.CN = strings.ToUpper(host) })
+	add("cn-holds-host-trailing-dot-no-san", func(s *certSpec) { s.CN = host + "." })
+	add("cn-holds-host-san-dns-other-name", func(s *certSpec) { s.CN = host; s.DNS = []string{"node-" + randWord(rng, 5) + ".other.test"} })
+	add("cn-holds-host-san-email-only", func(s *certSpec) { s.CN = host; s.Emails = []string{"client@" + randWord(rng, 5) + ".test"} })
+	add("cn-holds-host-san-ip-only", func(s *certSpec) { s.CN = host; s.IPs = []string{"127.0.0.1"} })
+	add("cn-and-ou-hold-host-no-san", func(s *certSpec) { s.CN = host; s.OU = host })
 	add("san-dns-right-among-others", func(s *certSpec) { s.DNS = []string{"x" + host, host}; s.Unjudged = acceptSide })
 	add("san-dns-upper-case", func(s *certSpec) { s.DNS = []string{strings.ToUpper(host)}; s.Unjudged = acceptSide })
 	add("san-dns-wildcard-sibling-level", func(s *certSpec) { s.DNS = []string{"*." + parent}; s.Unjudged = acceptSide })
@@ -685,6 +696,36 @@ func extraVariants(rng *mrand.Rand, o serverOpts, right certSpec) []certSpec {
 
 // credentialsFor builds the full credential list for an option set: the canonical right one
 // first, then chain variants (with right names), then name variants (with a right chain).
+// mirrorForOtherCA turns a credential list built around the "trusted" authority into the
+// corresponding list for an endpoint that trusts the "other" authority (issuers swapped;
+// variants whose issuer has no mirror image are dropped).
+func mirrorForOtherCA(specs []certSpec) []certSpec {
+	m := map[string]string{"trusted": "other", "other": "trusted", "inter-good": "inter-bad", "inter-bad": "inter-good",
+		"self": "self", "host": "host", "other-same-dn": "other-same-dn"}
+	var out []certSpec
+	for _, s := range specs {
+		if s.Present {
+			iss, ok := m[s.Issuer]
+			if !ok {
+				continue
+			}
+			s.Issuer = iss
+			ex := make([]extraCert, len(s.Extras))
+			for i, e := range s.Extras {
+				if v, ok := m[e.Issuer]; ok {
+					e.Issuer = v
+				}
+				ex[i] = e
+			}
+			if len(ex) > 0 {
+				s.Extras = ex
+			}
+		}
+		out = append(out, s)
+	}
+	return out
+}
+
 // canonicalSpec: the one credential that is right for an option set.
 func canonicalSpec(rng *mrand.Rand, o serverOpts) certSpec {
 	right := certSpec{Class: "canonical", Present: true, Issuer: "trusted", Validity: "valid", CN: "client-" + randWord(rng, 5)}
@@ -705,6 +746,10 @@ func canonicalSpec(rng *mrand.Rand, o serverOpts) certSpec {
 }
 
 func credentialsFor(rng *mrand.Rand, o serverOpts, all bool) []certSpec {
+	if o.TrustOther {
+		o.TrustOther = false
+		return mirrorForOtherCA(credentialsFor(rng, o, all))
+	}
 	right := canonicalSpec(rng, o)
 	out := []certSpec{right}
 	out = append(out, chainVariants(right)...)
